@@ -13,36 +13,54 @@ variable {α : Type} [Zero α]
 
 /-- For every history of saves / subset exports / foreign writes / close / reload run by a session (a `TemplateModel`
 exists only after a load, which leaves an assignment file: `hfile`, see `first_load`), a fresh load shows exactly the
-last saved spike-cluster assignments — or, when nothing was saved, what the opening load showed. The assignment file is
+last saved spike-cluster assignments — or, when nothing was saved, what the opening load showed — and that array is one
+the load ACCEPTS (`AssignOK`: one id per spike, ids below 2^31). The assignment file is
 kept BY NAME (`spike_clusters.npy`, `spikes.clusters.npy`, a labelled `spikes.clusters.probe00.npy`): `shown` reads the
 file the loader's `_find_path` resolves, `saveClusters` writes the file the save's `_find_path` resolves, and the
 theorem holds because the two resolve the same file (`findAssign_write`). `_hnc`: a directory in which BOTH name
 patterns match is rejected by the loader (IOError, `multiple_ok=False`) — out of scope, and by `assign_stays_loadable`
-no history creates one. -/
+no history creates one.
+Domain (`hinit`, `hsaves`): the file the session opened with and every array handed to `save_spike_clusters` have one
+id per spike (`ns = spike_times.shape[0]`) and ids below 2^31. `save_spike_clusters` checks neither and `np.save`s what it
+is given; outside the domain the real reload does NOT show the saved array: a wrong length fails
+`assert self.spike_clusters.shape == (ns,)` (model.py l. 374, the dataset no longer loads), an id ≥ 2^31 is wrapped by
+`astype(np.int32)` (l. 628). The model's `shown` has neither check, which is why the hypotheses are needed for the
+statement to be about the real load. -/
 theorem clusters_last_saved (render : Cell → String) (scale : α → α) (d : Disk α)
-    (hfile : (findAssign d.assign).isSome) (_hnc : ¬ Conflict d.assign) (ops : List Op) :
-    shown (run render scale d ops) = (absRun ⟨shown d, []⟩ ops).clusters :=
-  Lemmas.clusters_last_saved render scale d hfile ops
+    (hfile : (findAssign d.assign).isSome) (_hnc : ¬ Conflict d.assign)
+    (hinit : AssignOK d.fixed.spikeSamples.length (shown d)) (ops : List Op)
+    (hsaves : SavesOK d.fixed.spikeSamples.length ops) :
+    shown (run render scale d ops) = (absRun ⟨shown d, []⟩ ops).clusters ∧
+    AssignOK d.fixed.spikeSamples.length (shown (run render scale d ops)) :=
+  Lemmas.clusters_last_saved_ok render scale d hfile hinit ops hsaves
 
-/-- … and every later load of the history finds its file and no name conflict arises. -/
+/-- … and every later load of the history finds its file, no name conflict arises, and the array in the file is one
+the load accepts (length = number of spikes of the — unchanged — spike times, ids below 2^31); same domain as
+`clusters_last_saved` (a single save of a wrong-length array makes every later `load_model` raise AssertionError). -/
 theorem assign_stays_loadable (render : Cell → String) (scale : α → α) (d : Disk α)
-    (hfile : (findAssign d.assign).isSome) (hnc : ¬ Conflict d.assign) (ops : List Op) :
-    (findAssign (run render scale d ops).assign).isSome ∧ ¬ Conflict (run render scale d ops).assign :=
-  Lemmas.assign_stays_loadable render scale d hfile hnc ops
+    (hfile : (findAssign d.assign).isSome) (hnc : ¬ Conflict d.assign)
+    (hinit : AssignOK d.fixed.spikeSamples.length (shown d)) (ops : List Op)
+    (hsaves : SavesOK d.fixed.spikeSamples.length ops) :
+    (findAssign (run render scale d ops).assign).isSome ∧ ¬ Conflict (run render scale d ops).assign ∧
+    AssignOK (run render scale d ops).fixed.spikeSamples.length (shown (run render scale d ops)) :=
+  Lemmas.assign_stays_loadable_ok render scale d hfile hnc hinit ops hsaves
 
-/-- The load that opens a session, on ANY directory: afterwards an assignment file is found and shows what this load
-showed; a directory that has one is left untouched; a directory with none gets `spike_clusters.npy` holding the spike
-templates (the only file of this model a load ever writes) and nothing else changes. -/
-theorem first_load (render : Cell → String) (scale : α → α) (d : Disk α) :
+/-- The load that opens a session, on any directory the loader accepts (`hnc`: when BOTH `spike_clusters.npy` and a
+`spikes.clusters*.npy` exist, `_find_path(..., multiple_ok=False)` raises IOError and there is no session — the model's
+`findAssign` would pick the first pattern there): afterwards an assignment file is found, there is still no conflict,
+and the file shows what this load showed; a directory that has one is left untouched; a directory with none gets
+`spike_clusters.npy` holding the spike templates (the only file of this model a load ever writes) and nothing else
+changes. -/
+theorem first_load (render : Cell → String) (scale : α → α) (d : Disk α) (hnc : ¬ Conflict d.assign) :
     (findAssign (step render scale d .reload).assign).isSome ∧
+    ¬ Conflict (step render scale d .reload).assign ∧
     shown (step render scale d .reload) = shown d ∧
     ((findAssign d.assign).isSome → step render scale d .reload = d) ∧
     (findAssign d.assign = none →
-      (step render scale d .reload).assign = [(none, d.fixed.spikeTemplates)] ∧
-      ¬ Conflict (step render scale d .reload).assign) ∧
+      (step render scale d .reload).assign = [(none, d.fixed.spikeTemplates)]) ∧
     (step render scale d .reload).files = d.files ∧ (step render scale d .reload).subset = d.subset ∧
     (step render scale d .reload).fixed = d.fixed :=
-  Lemmas.first_load render scale d
+  Lemmas.first_load_nc render scale d hnc
 
 /-- … and, for every metadata field ever saved, exactly the last saved mapping of that field
 (None entries dropped, ids ascending), whatever was saved before or for other fields —
@@ -169,12 +187,16 @@ theorem subset_eq_raw (render : Cell → String) (scale : α → α) (nch : Nat)
   Lemmas.subset_eq_raw render scale nch d hfx hinit ops hsel st hst query hq chq hchq
 
 /-- … the same with NO assumption on the subset files the history starts with (stale, foreign, of another unit factor),
-once the history itself contains an export: the store a later reload finds is the one of the last export. -/
+once the history itself contains an export: the store a later reload finds is the one of the last export. `_hchqd` as
+in `subset_eq_raw` and C03 `routes_agree`: the query channels are distinct — the real lookup fills a repeated query
+channel only at its LAST position, the model's `getSpikeWaveforms` at every position, so outside `Nodup` the model
+equation is not a statement about the code. -/
 theorem subset_eq_raw_after_export (render : Cell → String) (scale : α → α) (nch : Nat) (d : Disk α)
     (hfx : FixedOK nch d.fixed) (a b : List Op) (sel : List Nat) (maxN : Nat)
     (hsel : SelOK d.fixed (a ++ .saveSubset sel maxN :: b))
     (st : C03.Store α) (hst : storeView (run render scale d (a ++ .saveSubset sel maxN :: b)) = some st)
-    (query : List Nat) (hq : ∀ q ∈ query, q ∈ st.spikeIds) (chq : List Nat) (hchq : chq ≠ []) :
+    (query : List Nat) (hq : ∀ q ∈ query, q ∈ st.spikeIds) (chq : List Nat) (hchq : chq ≠ [])
+    (_hchqd : chq.Nodup) :
     C03.getSpikeWaveforms st query chq d.fixed.nsw =
       some (query.map fun q =>
         C03.lookupSpec scale d.fixed.raw (d.fixed.spikeSamples.getD q 0) d.fixed.nsw
@@ -244,6 +266,24 @@ example : ¬ Conflict [((some ".probe00" : CName), [3, 0, 3, 0])] := by
   simp only [List.mem_singleton] at hp
   subst hp
   cases h
+-- the hypotheses of `clusters_last_saved` / `assign_stays_loadable` on that session (4 spikes): the opened file and the
+-- saved array have one id per spike and small ids; a one-entry array or an id 2^31 is outside `SavesOK`
+example :
+    let d : Disk Int := ⟨[(some ".probe00", [3, 0, 3, 0])], [], none, exFixed⟩
+    AssignOK d.fixed.spikeSamples.length (shown d) ∧
+    SavesOK d.fixed.spikeSamples.length [.reload, .saveClusters [5, 5, 6, 6], .close, .reload] ∧
+    ¬ SavesOK d.fixed.spikeSamples.length [.saveClusters [7]] ∧
+    ¬ SavesOK d.fixed.spikeSamples.length [.saveClusters [2147483648, 0, 0, 0]] := by
+  refine ⟨⟨rfl, by decide, by decide⟩, ?_, fun h => ?_, fun h => ?_⟩
+  · intro op hop
+    simp only [List.mem_cons, List.mem_nil_iff, or_false] at hop
+    rcases hop with rfl | rfl | rfl | rfl <;> first | trivial | exact ⟨rfl, by decide, by decide⟩
+  · exact absurd (h _ List.mem_cons_self).1 (by decide)
+  · exact absurd ((h _ List.mem_cons_self).2.2 2147483648 List.mem_cons_self) (by decide)
+-- a directory with BOTH `spike_clusters.npy` and `spikes.clusters.npy` is outside `first_load` (the real load raises IOError)
+example : Conflict [((none : CName), [0, 1, 0, 1]), (some "", [1, 1, 1, 1])] :=
+  ⟨⟨_, List.mem_cons_self, rfl⟩, ⟨_, List.mem_cons_of_mem _ List.mem_cons_self, rfl⟩⟩
+example : ¬ Conflict ([] : List (CName × List Nat)) := fun ⟨⟨_, hp, _⟩, _⟩ => by cases hp
 -- no assignment file at all (a fresh KiloSort output): the opening load creates `spike_clusters.npy` from the templates
 example :
     let d : Disk Int := ⟨[], [], none, exFixed⟩
@@ -285,6 +325,32 @@ example :
     (metadataViewIn parse noF [saved, foreign]).lookup "group" = some [(.int 1, .text "theirs")] ∧
     fileField parse noF "group" foreign = some [(.int 1, .text "theirs")] ∧
     fileField parse noF "quality" foreign = none := by decide
+-- `metadata_last_saved_among_files` with foreign writes BEFORE and AFTER the save (a `.tsv` about another field, an
+-- unreadable `.tsv`, a legacy `.csv` carrying the SAME field): `hkeep` and `hother` hold for the final directory, and
+-- the reload shows the saved mapping in the directory order and in the reversed one (`hperm`)
+example :
+    let parse : String → Cell := fun s => if s == "1" then .int 1 else .text s
+    let d : Disk Int := ⟨[], [(("cluster_groups", false), .table ["cluster_id", "group"] [["1", "unsorted"]])], none, exFixed⟩
+    let pre : List Op := [.writeFile ("zz", true) (.table ["cluster_id", "quality"] [["1", "x"]])]
+    let post : List Op := [.writeFile ("cluster_notes", true) (.table ["cluster_id", "note"] [["1", "hello"]]),
+      .writeFile ("old", false) (.table ["cluster_id", "group"] [["1", "theirs"]]),
+      .writeFile ("bad", true) .unreadable, .reload]
+    let fin := (run exRender (fun x => x) d (pre ++ .saveMeta "group" [(1, some (.text "ours"))] :: post)).files
+    fin.length = 6 ∧
+    (∀ p ∈ fin, p.1.2 = true → p.1 ≠ ("cluster_" ++ "group", true) → fileField parse noF "group" p = none) ∧
+    fileField parse noF "group" (("old", false), .table ["cluster_id", "group"] [["1", "theirs"]]) =
+      some [(.int 1, .text "theirs")] ∧
+    fin.reverse.Perm fin ∧
+    (metadataView parse noF fin).lookup "group" = some [(.int 1, .text "ours")] ∧
+    (metadataView parse noF fin.reverse).lookup "group" = some [(.int 1, .text "ours")] ∧
+    (metadataView parse noF fin).lookup "note" = some [(.int 1, .text "hello")] :=
+  ⟨by decide, by decide, by decide, List.reverse_perm _, by decide, by decide, by decide⟩
+example : KeepsSaved "group" [.writeFile ("cluster_notes", true) (.table ["cluster_id", "note"] [["1", "hello"]]),
+    .writeFile ("old", false) (.table ["cluster_id", "group"] [["1", "theirs"]]),
+    .writeFile ("bad", true) .unreadable, .reload] := by
+  intro op hop
+  simp only [List.mem_cons, List.mem_nil_iff, or_false] at hop
+  rcases hop with rfl | rfl | rfl | rfl <;> simp
 -- a repeated `cluster_id` column: the last non-empty cell is the id (dict semantics of read_tsv)
 example :
     let parse : String → Cell := fun s => if s == "1" then .int 1 else if s == "2" then .int 2 else .text s
@@ -311,6 +377,7 @@ example :
       [.saveSubset [1, 2] 0, .saveClusters [3, 3, 3, 3], .close, .reload])).bind
       (fun st => C03.getSpikeWaveforms st [2, 1] [1, 2] 2) =
     some [[[16, 0], [22, 0]], [[0, 6], [0, 12]]] := by decide
+example : ([1, 2] : List Nat).Nodup ∧ ([1, 2] : List Nat) ≠ [] := by decide   -- `_hchqd`, `hchq` of the lookup above
 -- an export over SEVERAL chunks (`exFixed.chunks = [(0, 3), (3, 4)]`): spike 1 lies in the first chunk, spikes 2 and 3 in the
 -- second one, where their positions in the chunk (0, 1) are not their rows in the selection (1, 2) and the rows of the
 -- channel table differ (template 0: channels 2, 0; template 1: channel 1 and a −1 column): every stored window is cut on
